@@ -46,7 +46,7 @@ impl<'a> Hist<'a> {
         let since = self.in_cache_since.get(&route).copied();
         let pair = self.pair(self.routes[route].dst);
         for (k, p) in self.penalties.iter().enumerate() {
-            if !p.report.concerns(&self.routes[route].hops) {
+            if !p.report.concerns(&self.routes[route].hops) || !p.certain {
                 continue;
             }
             let cached_then = since.map(|s| p.step >= s.1).unwrap_or(false);
@@ -171,13 +171,32 @@ impl<'a> Hist<'a> {
         }
         let now_ns = sim.now_ns();
         let dd = self.cfg.issue_deduplication_window.as_nanos() as u64;
-        let is_dup = self.penalties.iter().any(|p| format!("{:?}", p.report) == format!("{rep:?}") && now_ns - p.t_ns < dd);
+        // a duplicate is ignored by the stack - if its bounded issue memory still holds the earlier identical report
+        let earlier = self.penalties.iter().rposition(|p| format!("{:?}", p.report) == format!("{rep:?}") && now_ns - p.t_ns < dd);
+        let is_dup = earlier.is_some();
+        let dup_certain = earlier
+            .map(|k| {
+                let mut later: Vec<String> = self.penalties[k + 1..].iter().map(|q| format!("{:?}", q.report)).collect();
+                later.sort();
+                later.dedup();
+                later.len() + 1 < self.cfg.issue_cache_size
+            })
+            .unwrap_or(false);
         let before: Vec<Option<(Option<usize>, Vec<(usize, u32)>)>> = pairs.iter().map(|p| self.view(*p)).collect();
         let refused_before = self.stack.as_ref().map(|s| s.ul.st.lock().unwrap().failed).unwrap_or(0);
         self.op_report(rep.clone());
-        if is_dup {
+        let mut pushed = true;
+        if is_dup && dup_certain {
             // the stack ignores it: it carries no penalty
             self.penalties.pop();
+            pushed = false;
+        } else if is_dup {
+            // ignored or applied, depending on what the issue memory still holds: nothing is demanded of it, but paths
+            // it concerns do not count as clean
+            if let Some(p) = self.penalties.last_mut() {
+                p.certain = false;
+            }
+            sim.probe("report-possibly-duplicate");
         }
         self.settle_and_check(2000)?;
         if let (Some(s), Report::FirstHop { .. }) = (&self.stack, &rep) {
@@ -187,7 +206,7 @@ impl<'a> Hist<'a> {
             st.fail_first_hop = None;
             drop(st);
             if !happened {
-                if !is_dup {
+                if pushed {
                     self.penalties.pop();
                 }
                 sim.probe("stack-first-hop-refusal-not-met");
